@@ -133,14 +133,16 @@ def run(ctx):
                     back3 = [tuple(r) for r in etl.fromcsv(p3, encoding=enc, **rkw)] if enc != 'utf-16' else None
                     if not same_bytes or (back3 is not None and back3 != [as_text(r) for r in T + T2[1:]]):
                         fail('csv|append', 'appendcsv after tocsv differs from writing the concatenation', dict(case, table2=repr(T2)))
-                if kind in ('gz', 'bz2') and enc != 'utf-16':
+                if kind in ('gz', 'bz2') and not (kind == 'bz2' and enc == 'utf-16'):
                     p3 = path(ext)
                     etl.tocsv(T, p3, encoding=enc, **kw)
                     etl.appendcsv(T2, p3, encoding=enc, **kw)
                     back3 = [tuple(r) for r in etl.fromcsv(p3, encoding=enc, **rkw)]
                     ctx.count('csv:append-compressed')
                     if back3 != [as_text(r) for r in T + T2[1:]]:
-                        fail('csv|append|%s' % kind, 'append to a compressed source does not read back as the concatenation', dict(case, table2=repr(T2)))
+                        # utf-16 on gzip: the appended member starts with a second byte-order mark (known finding of its own)
+                        fail('csv|append|gz|utf-16|second-byte-order-mark' if (kind == 'gz' and enc == 'utf-16') else 'csv|append|%s' % kind,
+                             'append to a compressed source does not read back as the concatenation', dict(case, table2=repr(T2)))
             except Exception as e:   # noqa
                 fail('csv|raises|%s|%s|%s' % (type(e).__name__, enc if enc == 'utf-16' else 'other-encoding', kind), 'csv round trip raised %r' % e, case)
             # ---------------- a target that is written again is replaced, not overwritten in place
